@@ -5,7 +5,7 @@
    element-type tables from Gen/FormatsGen.v, Gen/MeditGen.v (regenerated from
    the Rust source on every run). *)
 From Coupe Require Import Lib.Prelude Model.Formats Model.MeditTypes Gen.MeditGen Model.Medit
-  Proofs.FormatsProofs Proofs.MeditBinProofs Proofs.C19Examples.
+  Proofs.FormatsProofs Proofs.MeditBinProofs Proofs.MeditAsciiProofs Proofs.C19Examples.
 Open Scope N_scope.
 
 (* ---------------------------------------------------------------- partition file *)
@@ -74,6 +74,48 @@ Theorem sniff_binary_written : forall m bytes n,
 Proof. exact sniff_binary_written_proof. Qed.
 Print Assumptions sniff_binary_written.
 
+(* ---------------------------------------------------------------- MEDIT ASCII *)
+
+(* [print_f64] / [parse_f64] stand for Rust std's `impl Display for f64` / `impl FromStr for f64`
+   on bit patterns.  What is assumed of them, for the coordinates of the mesh only:
+     float_ok x := parse_f64 (print_f64 x) = Some x /\ word_ok (print_f64 x)
+   (the text parses back to the same bits; it is non-empty ASCII without white space).
+   [rw_medit_ascii] = display_medit_ascii, then parse_ascii.  wf_mesh_ascii: the invariants of
+   Mesh::from_raw_parts, dimension >= 1, node numbers < 2^64 - 1, in-memory sizes.
+   norm_ascii: Vertex blocks are not written; nothing else changes (Quadrangle stays Quadrangle). *)
+Theorem medit_ascii_roundtrip : forall print_f64 parse_f64 m,
+  wf_mesh_ascii m -> Forall (float_ok print_f64 parse_f64) (m_coords m) ->
+  rw_medit_ascii print_f64 parse_f64 m = FOk (norm_ascii m).
+Proof. exact medit_ascii_roundtrip_proof. Qed.
+Print Assumptions medit_ascii_roundtrip.
+
+Theorem medit_ascii_roundtrip_exact : forall print_f64 parse_f64 m,
+  wf_mesh_ascii m -> Forall (float_ok print_f64 parse_f64) (m_coords m) ->
+  Forall (fun b => b_ty b <> Vertex) (m_topo m) ->
+  rw_medit_ascii print_f64 parse_f64 m = FOk m.
+Proof. exact medit_ascii_roundtrip_novertex. Qed.
+Print Assumptions medit_ascii_roundtrip_exact.
+
+(* whatever prefix (>= 20 bytes) of an ASCII file Mesh::from_reader looks at, it decides "ASCII" *)
+Theorem sniff_ascii_written : forall print_f64 m bytes n,
+  serialize_ascii print_f64 m = FOk bytes ->
+  Forall (fun x => word_ok (print_f64 x)) (m_coords m) ->
+  (20 <= n)%nat -> sniff (firstn n bytes) = FOk FmtAscii.
+Proof. exact sniff_ascii_written_proof. Qed.
+Print Assumptions sniff_ascii_written.
+
+(* hence Mesh::from_reader = the parser of the format the file was written in *)
+Theorem from_reader_written_binary : forall parse_f64 m bytes,
+  serialize_binary m = FOk bytes -> from_reader parse_f64 bytes = parse_binary bytes.
+Proof. exact from_reader_binary_written. Qed.
+Theorem from_reader_written_ascii : forall print_f64 parse_f64 m bytes,
+  serialize_ascii print_f64 m = FOk bytes ->
+  Forall (fun x => word_ok (print_f64 x)) (m_coords m) ->
+  from_reader parse_f64 bytes = parse_ascii parse_f64 bytes.
+Proof. exact from_reader_ascii_written. Qed.
+Print Assumptions from_reader_written_binary.
+Print Assumptions from_reader_written_ascii.
+
 (* ---------------------------------------------------------------- non-vacuity *)
 
 Example partition_nonvacuous :
@@ -100,3 +142,11 @@ Example medit_bin_normalises :
   rw_medit_bin example_mesh_exotic
   = FOk (mkmesh 3 (m_coords example_mesh_exotic) [1; 2; 3; 4]%Z [mkblock Quadrilateral [0; 1; 2; 3] [-4]%Z]).
 Proof. exact example_mesh_exotic_bin. Qed.
+
+(* the float hypotheses are satisfiable: an instance on the coordinates 0, 1, 2, -1 of
+   [example_mesh], and the round trip through the text computed by the model *)
+Example medit_ascii_nonvacuous :
+  wf_mesh_ascii example_mesh /\ Forall (float_ok ex_print ex_parse) (m_coords example_mesh)
+  /\ Forall (fun b => b_ty b <> Vertex) (m_topo example_mesh)
+  /\ rw_medit_ascii ex_print ex_parse example_mesh = FOk example_mesh.
+Proof. exact example_mesh_ascii. Qed.
